@@ -146,6 +146,9 @@ Proof.
     replace (s + nS * (t + nT * v)) with ((s + nS * t) + (nS * nT) * v) by ring. apply mod_idx. nia.
 Qed.
 
+Lemma Ok_inj {A} (a b : A) : Ok a = Ok b -> a = b.
+Proof. intros H. injection H as ->. reflexivity. Qed.
+
 Section WithV.
   Context {V : Type} (veqb : V -> V -> bool) (vnone : V).
 
@@ -225,5 +228,162 @@ Section WithV.
     assert (Hf : mult_spec (dims h) new / mult_spec (dims h) c = wfact (dims h) c new).
     { rewrite (wfact_mult (dims h) c new Ha). apply Nat.div_mul. lia. }
     rewrite Hf. destruct (cls_eqb_spec new GConst) as [->|_]; [congruence | reflexivity].
+  Qed.
+
+  Lemma preserving_None : preserving None = Some [GConst; VSamples; TSamples; TSlices; VSlices; GSlices].
+  Proof. vm_compute. reflexivity. Qed.
+
+  Lemma allowed_from_none new : allowedb None new = true.
+  Proof. unfold allowedb. rewrite preserving_None. destruct new; reflexivity. Qed.
+
+  Lemma rep_each_single (x : V) n : rep_each n [x] = repeat x n.
+  Proof. unfold rep_each. cbn [flat_map]. apply app_nil_r. Qed.
+
+  Lemma class_ok_const h : hdr_ok h -> class_ok (shape h) GConst = true.
+  Proof.
+    intros [Hn _]. unfold class_ok, ndim in *. destruct (length (shape h)) as [|[|[|[|[|[|n]]]]]]; try lia; reflexivity.
+  Qed.
+
+  (** an absent key is the constant None *)
+  Lemma changed_class_none h new sd :
+    hdr_ok h -> class_ok (shape h) new = true -> (is_slices new = true -> sdim h <> None) ->
+    changed_class vnone h None new sd = Ok (repeat vnone (mult_spec (dims h) new)).
+  Proof.
+    intros Hh Hok Hsl. unfold changed_class. cbn [visible kst_class ocls_eqb].
+    rewrite preserving_None. replace (mem_cls new _) with true by (destruct new; reflexivity). cbn [negb bind].
+    rewrite class_valid_ok, Hok, (multiplicity_ok' h new Hh Hok Hsl). cbn [bind].
+    pose proof (mult_pos h new Hh) as Hp1.
+    destruct (Nat.eqb_spec (mult_spec (dims h) new) 0) as [E|_]; [lia|]. cbn [bind Nat.eqb].
+    rewrite Nat.div_1_r, rep_each_single.
+    destruct (cls_eqb_spec new GConst) as [->|_]; [|reflexivity].
+    destruct (dims h) as [[nS nT] nV]. reflexivity.
+  Qed.
+
+  (** the three outcomes of [changed_class] on a present key *)
+  Lemma changed_class_cases h c vs new sd :
+    hdr_ok h -> good_k h (Some (c, vs)) ->
+    class_ok (shape h) new = true -> (is_slices new = true -> sdim h <> None) ->
+    (c = new /\ changed_class vnone h (Some (c, vs)) new sd = Ok vs) \/
+    (allowedb (Some c) new = true /\
+     changed_class vnone h (Some (c, vs)) new sd =
+     Ok (if is_slices c then rep_list (wfact (dims h) c new) vs else rep_each (wfact (dims h) c new) vs)) \/
+    (c <> new /\ allowedb (Some c) new = false /\ exists e, changed_class vnone h (Some (c, vs)) new sd = Err e).
+  Proof.
+    intros Hh Hg Hok Hsl.
+    destruct (cls_eqb_spec c new) as [->|Hne].
+    - left. split; [reflexivity|]. unfold changed_class. rewrite (visible_good _ _ Hg). cbn [kst_class ocls_eqb].
+      rewrite cls_eqb_refl. reflexivity.
+    - right. destruct (allowedb (Some c) new) eqn:Ea.
+      + left. split; [reflexivity|]. apply changed_class_some; assumption.
+      + right. split; [exact Hne|]. split; [reflexivity|].
+        unfold changed_class. rewrite (visible_good _ _ Hg). cbn [kst_class ocls_eqb].
+        destruct (cls_eqb_spec c new) as [->|_]; [congruence|].
+        unfold allowedb in Ea. destruct (preserving (Some c)) as [l|]; [|eauto]. rewrite Ea. cbn [negb]. eauto.
+  Qed.
+
+  (** THEOREM 1 (value-list form): [_get_changed_class] returns exactly [mult] values and every grid position
+      reads the same value through the new class as through the old one *)
+  Lemma changed_class_den h s new sd vs' :
+    hdr_ok h -> good_k h s ->
+    class_ok (shape h) new = true -> (is_slices new = true -> sdim h <> None) ->
+    changed_class vnone h s new sd = Ok vs' ->
+    length vs' = mult_spec (dims h) new /\
+    forall p, in_dims (dims h) p -> nth (cidx (dims h) new p) vs' vnone = den_k h s p.
+  Proof.
+    intros Hh Hg Hok Hsl Hc. destruct s as [[c vs]|].
+    - pose proof Hg as [Hcok [Hcsl Hlen]].
+      destruct (changed_class_cases h c vs new sd Hh Hg Hok Hsl) as [[-> E]|[[Ha E]|[_ [_ [e E]]]]];
+        rewrite E in Hc; [apply Ok_inj in Hc; subst vs' | apply Ok_inj in Hc; subst vs' | discriminate].
+      + split; [exact Hlen|]. intros p _. rewrite den_k_good by exact Hok. reflexivity.
+      + pose proof (wfact_mult (dims h) c new Ha) as Hm. pose proof (mult_pos h c Hh) as Hp. pose proof (mult_pos h new Hh) as Hp'.
+        assert (Hw : wfact (dims h) c new <> 0) by (intros E0; rewrite E0 in Hm; lia).
+        split.
+        * destruct (is_slices c); [rewrite rep_list_length | rewrite rep_each_length]; rewrite Hlen, Hm; reflexivity.
+        * intros p Hp0. rewrite den_k_good by exact Hcok.
+          pose proof (widen_index (dims h) c new p Ha Hp0) as Hi.
+          destruct (is_slices c).
+          -- assert (Hb : cidx (dims h) new p < wfact (dims h) c new * length vs)
+               by (rewrite Hlen, <- Hm; apply cidx_lt; exact Hp0).
+             rewrite (rep_list_nth _ _ _ vnone Hb), Hlen, Hi. reflexivity.
+          -- rewrite rep_each_nth by exact Hw. rewrite Hi. reflexivity.
+    - rewrite changed_class_none in Hc by assumption. injection Hc as <-.
+      split; [apply repeat_length|]. intros p _. cbn [den_k].
+      destruct (Nat.lt_ge_cases (cidx (dims h) new p) (mult_spec (dims h) new)) as [Hlt|Hge].
+      + apply nth_repeat_any. exact Hlt.
+      + apply nth_overflow. rewrite repeat_length. exact Hge.
+  Qed.
+
+  Lemma changed_class_ok h s new sd :
+    hdr_ok h -> good_k h s ->
+    class_ok (shape h) new = true -> (is_slices new = true -> sdim h <> None) ->
+    widens (kst_class s) new ->
+    exists vs', changed_class vnone h s new sd = Ok vs'.
+  Proof.
+    intros Hh Hg Hok Hsl Hw. destruct s as [[c vs]|].
+    - destruct (changed_class_cases h c vs new sd Hh Hg Hok Hsl) as [[-> E]|[[Ha E]|[Hne [Hna _]]]]; eauto.
+      destruct Hw as [Hw|Hw]; cbn [kst_class] in Hw; [injection Hw as ->; congruence | congruence].
+    - rewrite changed_class_none by assumption. eauto.
+  Qed.
+
+  (** the target class is not admitted by [h] (an input of lower dimensionality): the model's multiplicity is 1;
+      the result is meaningful when the key is absent or constant *)
+  Lemma changed_class_invalid h s new sd :
+    hdr_ok h -> good_k h s -> class_ok (shape h) new = false -> widens (kst_class s) new ->
+    exists vs', changed_class vnone h s new sd = Ok vs' /\
+                (s = None -> vs' = [vnone]) /\ (forall v, s = Some (GConst, [v]) -> vs' = [v]).
+  Proof.
+    intros Hh Hg Hok Hw.
+    assert (Hnc : new <> GConst) by (intros ->; rewrite (class_ok_const h Hh) in Hok; discriminate).
+    destruct s as [[c vs]|].
+    - pose proof Hg as [Hcok [Hcsl Hlen]].
+      destruct Hw as [Hw|Hw]; cbn [kst_class] in Hw; [injection Hw as ->; congruence|].
+      destruct (allowed_not_const _ _ Hw) as [_ Hne].
+      unfold changed_class. rewrite (visible_good _ _ Hg). cbn [kst_class ocls_eqb].
+      destruct (cls_eqb_spec c new) as [->|_]; [congruence|].
+      unfold allowedb in Hw. destruct (preserving (Some c)) as [l|]; [|discriminate]. rewrite Hw. cbn [negb].
+      rewrite (multiplicity_ok' h c Hh Hcok Hcsl). cbn [bind]. rewrite class_valid_ok, Hok. cbn [bind].
+      pose proof (mult_pos h c Hh) as Hp.
+      destruct (Nat.eqb_spec (mult_spec (dims h) c) 0) as [E|_]; [lia|].
+      destruct (cls_eqb_spec new GConst) as [->|_]; [congruence|].
+      eexists. split; [reflexivity|]. split; [discriminate|].
+      intros v Hv. injection Hv as -> ->. cbn [is_slices sub_of].
+      destruct (dims h) as [[nS nT] nV]. cbn [mult_spec]. rewrite Nat.div_1_r. apply rep_each_one.
+    - unfold changed_class. cbn [visible kst_class ocls_eqb]. rewrite preserving_None.
+      replace (mem_cls new _) with true by (destruct new; reflexivity). cbn [negb bind].
+      rewrite class_valid_ok, Hok. cbn [bind Nat.eqb]. rewrite Nat.div_1_r.
+      destruct (cls_eqb_spec new GConst) as [->|_]; [congruence|].
+      eexists. split; [reflexivity|]. split; [intros _; apply rep_each_one | discriminate].
+  Qed.
+
+  (** * [_change_class] *)
+
+  (** THEOREM 1: widening a key in place keeps its denotation, and the new state is well formed *)
+  Lemma change_class_k_den h s new s' :
+    hdr_ok h -> good_k h s ->
+    class_ok (shape h) new = true -> (is_slices new = true -> sdim h <> None) ->
+    change_class_k vnone h s new = Ok s' ->
+    (exists vs', s' = Some (new, vs')) /\ good_k h s' /\
+    forall p, in_dims (dims h) p -> den_k h s' p = den_k h s p.
+  Proof.
+    intros Hh Hg Hok Hsl Hc. unfold change_class_k in Hc. rewrite (visible_good _ _ Hg) in Hc.
+    destruct (ocls_eqb (kst_class s) (Some new)) eqn:Eo.
+    - injection Hc as <-. destruct s as [[c vs]|]; [|discriminate]. cbn [kst_class ocls_eqb] in Eo.
+      apply cls_eqb_eq in Eo. subst c. split; [eauto|]. split; [exact Hg | reflexivity].
+    - apply bind_ok in Hc as [vals [Hv Hp]]. unfold put in Hp.
+      destruct (has_base h (base_of new)); [|discriminate]. injection Hp as <-.
+      destruct (changed_class_den h s new None vals Hh Hg Hok Hsl Hv) as [Hlen Hden].
+      split; [eauto|]. split; [cbn [good_k]; auto|].
+      intros p Hp. rewrite den_k_good by exact Hok. apply Hden. exact Hp.
+  Qed.
+
+  Lemma change_class_k_ok h s new :
+    hdr_ok h -> good_k h s ->
+    class_ok (shape h) new = true -> (is_slices new = true -> sdim h <> None) ->
+    has_base h (base_of new) = true -> widens (kst_class s) new ->
+    exists s', change_class_k vnone h s new = Ok s'.
+  Proof.
+    intros Hh Hg Hok Hsl Hb Hw. unfold change_class_k. rewrite (visible_good _ _ Hg).
+    destruct (ocls_eqb (kst_class s) (Some new)); [eauto|].
+    destruct (changed_class_ok h s new None Hh Hg Hok Hsl Hw) as [vs' ->]. cbn [bind]. unfold put. rewrite Hb. eauto.
   Qed.
 End WithV.
